@@ -285,15 +285,32 @@ private:
       return false;
     }
 
-    int ats = 0;
+    int ats       = 0;
+    size_t at_pos = 0;
 
-    for (const char c : key)
+    for (size_t i = 0; i < key.size(); ++i)
     {
+      const char c = key[i];
       if (!IsLowerCaseAlphaOrDigit(c) && c != '_' && c != '-' && c != '@' && c != '*' && c != '/')
       {
         return false;
       }
       if ((c == '@') && (++ats > 1))
+      {
+        return false;
+      }
+      if (c == '@')
+      {
+        at_pos = i;
+      }
+    }
+    if (ats == 1)
+    {
+      // multi-tenant key: tenant-id (at most 241 characters) "@" system-id (1 to 14 characters,
+      // starting like a key), as in reg_key_multitenant of the regex variant
+      const size_t system_size = key.size() - at_pos - 1;
+      if (at_pos > 241 || system_size == 0 || system_size > 14 ||
+          !IsLowerCaseAlphaOrDigit(key[at_pos + 1]))
       {
         return false;
       }
@@ -315,7 +332,8 @@ private:
         return false;
       }
     }
-    return true;
+    // the last character must not be a blank (value = 0*255(chr) nblk-chr)
+    return value[value.size() - 1] != ' ';
   }
 #endif
 
